@@ -24,6 +24,7 @@ type FD struct {
 	Enc bool   `json:"enc"` // encoded at all (exported and not "-")
 	Opt string `json:"opt"` // tag option: "", flat, intern, proto, flattime, ...
 	Tag string `json:"tag"` // raw struct tag when it must be used verbatim (C08); "" = derive from I/Opt
+	Raw bool   `json:"raw,omitempty"` // use Tag verbatim even when it is empty (C08)
 	JT  string `json:"jt,omitempty"` // raw json tag value when its form matters (C14), e.g. ",omitempty", "-", "x,omitempty"
 	T   *TD    `json:"t"`
 }
@@ -66,7 +67,7 @@ const pkgPath = "verifharness/internal/abs"
 
 // FieldTag returns the struct tag the field carries.
 func (f *FD) FieldTag() string {
-	if f.Tag != "" {
+	if f.Tag != "" || f.Raw {
 		return f.Tag
 	}
 	if !f.Enc {
@@ -148,8 +149,10 @@ func GoType(t *TD) reflect.Type {
 		}
 		return reflect.StructOf(fs)
 	}
-	if rt, ok := unsupported[t.K]; ok {
-		return rt
+	if t.K == "unsup" {
+		if rt, ok := unsupported[t.G]; ok {
+			return rt
+		}
 	}
 	panic("kind " + t.K)
 }
@@ -231,6 +234,8 @@ func (t *TD) MarshalJSON() ([]byte, error) {
 		if t.G != "" {
 			m["g"] = t.G
 		}
+	case "unsup":
+		m["g"] = t.G
 	case "null":
 		m["of"] = t.Of
 	case "ptr", "slice":
